@@ -20,7 +20,7 @@ CLAIMED = {
  "C08": K("birth/finish atomicity monitor + per-cycle dispatch rules with the production router and sender worker over simulated transports", "Routed promises are born with their task, completion finishes outstanding tasks in the same transaction, each dispatch cycle obeys the selection rules, tasks are enqueued only after a successful hand-off.", "DESIGN.md 5 C08"),
  "C09": K("lock lease monitor + lock specification", "Mutual exclusion, release only by the holder, expiry only at or after the (timely renewed) lease end, heartbeats change only leases of the caller's locks; crashes and restarts (30 % of the runs) must leave every held lock in place.", "DESIGN.md 5 C09"),
  "C10": K("occurrence oracle (independent cron walk) on every schedule-row transition", "Every change of a schedule row must be the firing of exactly the next occurrence, not before its time, together with that occurrence's promise carrying the schedule's configuration; creation/deletion rules; clock jumps over many occurrences, crashes mid-cycle.", "DESIGN.md 5 C10"),
- "C11": K("bounded-liveness predicate after a fault-free window whose length is computed from the backlog, swarm over all size knobs", "After clients and faults stop, the server is granted a number of background periods computed from the stored backlog and the batch sizes; afterwards nothing may be overdue and the kernel must be quiescent (one run in three uses the task mix with failing hand-offs).", "DESIGN.md 5 C11"),
+ "C11": K("bounded-liveness predicate after a fault-free window whose length is computed from the backlog, swarm over all size knobs", "After clients and faults stop, the server is granted a number of background periods computed from the stored backlog and the batch sizes; afterwards nothing may be overdue and the kernel must be quiescent (every second run uses the task mix with failing hand-offs). A second phase (15 %) runs the poll transport itself (engine P): every message given to the worker is completed, whatever its listeners do (stalled, full, gone).", "DESIGN.md 5 C11"),
  "C12": K("exactly-one-response accounting on the production api/aio queues under tiny queues, subsystem failures and shutdown", "Every submitted request is counted: never two callbacks, exactly one by the end of the run (or lost only to a crash), explicit kernel error codes, graceful shutdown answers everything accepted; a production call that never returns (every goroutine blocked) is reported as a hang with its replay. A second phase runs the production Loop/Signal/Shutdown in a synctest bubble.", "DESIGN.md 5 C12"),
  "C14": K("per-page comparison with the state the page's transaction saw + traversal oracle across pages", "Each page must be the newest-first matching set of the state its search transaction saw, with a cursor iff full; a completed traversal must contain every item that matched throughout exactly once, in order; forged cursors are refused. Runs start from stored content (4-10 promises, 2-5 schedules with several tags), cursors are followed by the client that holds them.", "DESIGN.md 5 C14"),
  "C19": K("independent receiver resolution function checked against every hand-off of the production router + sender worker", "For every dispatched task the message must reach the transport and address the statement prescribes, with the body naming that exact task; unresolvable addresses must produce failed, retried hand-offs, never a message. A second phase (15 %) runs the poll transport itself (engine P): the bytes of a hand-off reported successful reach exactly one listener the address names, a full or absent listener fails the hand-off.", "DESIGN.md 5 C19"),
